@@ -130,6 +130,8 @@ fn gen_svc_params(r: &mut Rng) -> Vec<u8> {
             5 => gen_blob(r, 40),              // ech
             6 => { let n = 16 * (1 + r.below(2) as usize); r.bytes(n) } // ipv6hint
             7 => { let n = 1 + r.below(20) as usize; octets(r, n) } // dohpath
+            8 => vec![],                       // ohttp takes no value
+            9 => { let n = 2 * (1 + r.below(3) as usize); r.bytes(n) } // tls-supported-groups: u16 list
             _ => gen_blob(r, 30),
         };
         params.push((key as u16, val));
@@ -280,11 +282,13 @@ fn printable(s: &[u8]) -> String {
 #[derive(Clone, PartialEq, Debug)]
 enum Verdict { Ok, Fail(String, String) } // class, detail
 
-/// The property for one record and one display kind.
-fn round_trip(rec: &Rec, tname: &str, k: char, kname: &str) -> Verdict {
+/// What went wrong for one record and one display kind (no classification).
+enum Raw { Ok, WriterPanic(String), WriterErr, ReaderPanic(String), Differs(String) }
+
+fn rt_raw(rec: &Rec, tname: &str, k: char, kname: &str) -> Raw {
     let text = match write_rec(rec, k) {
-        Err(p) => return Verdict::Fail("panic_writer".into(), format!("type={} kind={} panic={}", tname, kname, p)),
-        Ok(Err(())) => return Verdict::Fail(format!("writer_error_{}_{}", tname, kname), "display_zonefile returned fmt::Error".into()),
+        Err(p) => return Raw::WriterPanic(format!("type={} kind={} panic={}", tname, kname, p)),
+        Ok(Err(())) => return Raw::WriterErr,
         Ok(Ok(t)) => t,
     };
     let mut full = text.clone().into_bytes();
@@ -292,8 +296,7 @@ fn round_trip(rec: &Rec, tname: &str, k: char, kname: &str) -> Verdict {
     let mut first: Option<String> = None;
     for origin in [None, Some("origin.test.")] {
         let got = match read_text(&full, origin) {
-            Err(p) => { let c = classify(rec, tname, kname, ""); let c = if c.starts_with("roundtrip_") { "panic_reader".to_string() } else { format!("{}_reader_panic", c) };
-                return Verdict::Fail(c, format!("type={} kind={} text={} panic={}", tname, kname, printable(&full), p)) }
+            Err(p) => return Raw::ReaderPanic(format!("type={} kind={} text={} panic={}", tname, kname, printable(&full), p)),
             Ok(g) => g,
         };
         let why = match got {
@@ -315,7 +318,104 @@ fn round_trip(rec: &Rec, tname: &str, k: char, kname: &str) -> Verdict {
             }
         }
     }
-    match first { None => Verdict::Ok, Some(d) => { let c = classify(rec, tname, kname, &d); Verdict::Fail(c, d) } }
+    match first { None => Raw::Ok, Some(d) => Raw::Differs(d) }
+}
+
+/// The property for one record and one display kind.
+fn round_trip(rec: &Rec, tname: &str, k: char, kname: &str) -> Verdict {
+    match rt_raw(rec, tname, k, kname) {
+        Raw::Ok => Verdict::Ok,
+        Raw::WriterPanic(d) => Verdict::Fail("panic_writer".into(), d),
+        Raw::WriterErr => Verdict::Fail(format!("writer_error_{}_{}", tname, kname), "display_zonefile returned fmt::Error".into()),
+        Raw::ReaderPanic(d) => {
+            let c = classify(rec, tname, k, kname);
+            let c = if c.starts_with("roundtrip_") { "panic_reader".to_string() } else { format!("{}_reader_panic", c) };
+            Verdict::Fail(c, d)
+        }
+        Raw::Differs(d) => Verdict::Fail(classify(rec, tname, k, kname), d),
+    }
+}
+
+fn passes(rec: &Rec, tname: &str, k: char, kname: &str) -> bool { matches!(rt_raw(rec, tname, k, kname), Raw::Ok) }
+
+fn with_parts(rec: &Rec, owner: Option<&[u8]>, rdata: Option<&[u8]>) -> Option<Rec> {
+    let rd = rdata_wire(rec.data());
+    make_record(owner.unwrap_or(rec.owner().as_slice()), rec.class().to_int(), rec.ttl().as_secs(), rec.data().rtype().to_int(), rdata.unwrap_or(&rd))
+}
+
+// ---- SVCB / HTTPS parameters: root causes decided on the written record
+
+type Params = Vec<(u16, Vec<u8>)>;
+/// (octets before the parameters, parameters)
+fn svcb_split(rd: &[u8]) -> Option<(Vec<u8>, Params)> {
+    let mut i = 2;
+    loop { let l = *rd.get(i)? as usize; i += 1; if l == 0 { break; } i += l; }
+    let head = rd.get(..i)?.to_vec();
+    let mut ps = Vec::new();
+    while i < rd.len() {
+        let k = u16::from_be_bytes([*rd.get(i)?, *rd.get(i + 1)?]);
+        let l = u16::from_be_bytes([*rd.get(i + 2)?, *rd.get(i + 3)?]) as usize;
+        ps.push((k, rd.get(i + 4..i + 4 + l)?.to_vec()));
+        i += 4 + l;
+    }
+    Some((head, ps))
+}
+fn svcb_join(head: &[u8], ps: &Params) -> Vec<u8> {
+    let mut v = head.to_vec();
+    for (k, val) in ps { v.extend(k.to_be_bytes()); v.extend((val.len() as u16).to_be_bytes()); v.extend(val); }
+    v
+}
+fn svc_safe(b: u8) -> bool { (0x21..0x7f).contains(&b) && !b"\"();\\,".contains(&b) }
+fn mandatory_keys(val: &[u8]) -> Vec<u16> { val.chunks(2).filter(|c| c.len() == 2).map(|c| u16::from_be_bytes([c[0], c[1]])).collect() }
+/// remove the parameters selected by `drop` (also from the mandatory list)
+fn svcb_drop(ps: &Params, drop: &dyn Fn(u16, &[u8]) -> bool) -> Params {
+    let gone: Vec<u16> = ps.iter().filter(|(k, v)| *k != 0 && drop(*k, v)).map(|(k, _)| *k).collect();
+    let mut out = Params::new();
+    for (k, v) in ps {
+        if *k == 0 {
+            let keep: Vec<u8> = mandatory_keys(v).into_iter().filter(|m| !gone.contains(m)).flat_map(|m| m.to_be_bytes()).collect();
+            if !keep.is_empty() { out.push((0, keep)); }
+        } else if !gone.contains(k) { out.push((*k, v.clone())); }
+    }
+    out
+}
+const SVCB_CAUSES: [&str; 4] = ["svcb_params_nodefaultalpn", "svcb_params_generic_key", "svcb_params_value_escaping", "empty_field_SVCB"];
+/// the reader's key charset is `a..y`, `0..8`, `-` (half-open ranges): keyNNN with a 9 is rejected
+fn key_unreadable(k: u16) -> bool { k > 9 && k.to_string().contains('9') }
+fn value_unsafe(k: u16, v: &[u8], i: usize) -> bool {
+    let b = v[i];
+    if k == 1 { !svc_safe(b) && !alpn_len_pos(v, i) } else if k == 7 { !svc_safe(b) } else if k > 9 { !b.is_ascii_alphanumeric() } else { false }
+}
+fn svcb_has(cause: usize, ps: &Params) -> bool {
+    match cause {
+        0 => ps.iter().any(|(k, _)| *k == 2),
+        1 => ps.iter().any(|(k, v)| key_unreadable(*k) || (*k == 0 && mandatory_keys(v).iter().any(|m| key_unreadable(*m)))),
+        2 => ps.iter().any(|(k, v)| (0..v.len()).any(|i| value_unsafe(*k, v, i))),
+        _ => ps.iter().any(|(k, v)| v.is_empty() && *k != 2 && *k != 8) || ps.iter().any(|(k, v)| *k == 1 && alpn_has_empty_id(v)),
+    }
+}
+fn alpn_len_pos(v: &[u8], pos: usize) -> bool { let mut i = 0; while i < v.len() { if i == pos { return true; } i += 1 + v[i] as usize; } false }
+fn alpn_has_empty_id(v: &[u8]) -> bool { let mut i = 0; while i < v.len() { if v[i] == 0 { return true; } i += 1 + v[i] as usize; } false }
+fn svcb_repair(cause: usize, ps: &Params) -> Params {
+    match cause {
+        0 => svcb_drop(ps, &|k, _| k == 2),
+        1 => svcb_drop(ps, &|k, _| key_unreadable(k)),
+        2 => ps.iter().map(|(k, v)| (*k, (0..v.len()).map(|i| if value_unsafe(*k, v, i) { b'a' } else { v[i] }).collect())).collect(),
+        _ => svcb_drop(ps, &|k, v| (v.is_empty() && k != 2 && k != 8) || (k == 1 && alpn_has_empty_id(v))),
+    }
+}
+fn svcb_classify(rec: &Rec, tname: &str, k: char, kname: &str) -> String {
+    let rd = rdata_wire(rec.data());
+    let (head, ps) = match svcb_split(&rd) { Some(x) => x, None => return format!("svcb_unparsed_{}", kname) };
+    let present: Vec<usize> = (0..4).filter(|c| svcb_has(*c, &ps)).collect();
+    let ok_with = |ps: &Params| with_parts(rec, None, Some(&svcb_join(&head, ps))).map_or(false, |r| passes(&r, tname, k, kname));
+    // one root cause alone explains the failure
+    for c in &present { if ok_with(&svcb_repair(*c, &ps)) { return SVCB_CAUSES[*c].to_string(); } }
+    // all of them together do
+    let mut all = ps.clone();
+    for c in &present { all = svcb_repair(*c, &all); }
+    if !present.is_empty() && ok_with(&all) { return SVCB_CAUSES[present[0]].to_string(); }
+    format!("svcb_params_unexplained_{}", tname)
 }
 
 /// An unquoted position where the writer produced an empty token (two
@@ -337,23 +437,23 @@ fn has_empty_token(simple: &str) -> bool {
 
 /// Root-cause class of a failing record (specific word first, the per-type
 /// class as the fallback).
-fn classify(rec: &Rec, tname: &str, kname: &str, why: &str) -> String {
-    let ow = rec.owner().as_slice();
-    if ow.len() > 1 && ow[1] == b'$' { return "owner_leading_dollar".into(); }
+fn classify(rec: &Rec, tname: &str, k: char, kname: &str) -> String {
+    // is the owner the cause?  re-run the same record with a harmless owner
+    let ow = rec.owner().as_slice().to_vec();
+    let plain = with_parts(rec, Some(b"\x07example\x00"), None);
+    let rec = match plain {
+        Some(p) if ow != b"\x07example\x00" => {
+            if passes(&p, tname, k, kname) {
+                return if ow.len() > 1 && ow[1] == b'$' { "owner_leading_dollar".into() } else { format!("owner_name_{}", kname) };
+            }
+            p
+        }
+        _ => rec.clone(),
+    };
     let rd = rdata_wire(rec.data());
     if tname == "TXT" && rd.is_empty() { return "txt_no_strings".into(); }
-    if tname == "IPSECKEY" && rd.len() > 1 && rd[1] == 0 { return "ipseckey_gateway_none".into(); }
-    if let Ok(Ok(s)) = write_rec(rec, 's') { if has_empty_token(&s) { return format!("empty_field_{}", tname); } }
-    if tname == "SVCB" || tname == "HTTPS" {
-        // irregular glue: name the reader's complaint
-        if let Some(i) = why.find("reader error: ") {
-            let msg = &why[i + 14..];
-            let msg = msg.splitn(2, ": ").nth(1).unwrap_or(msg); // drop line:col
-            let slug: String = msg.split_whitespace().take(4).collect::<Vec<_>>().join("_").chars().filter(|c| c.is_ascii_alphanumeric() || *c == '_').collect();
-            return format!("svcb_params_{}", slug.to_lowercase());
-        }
-        return "svcb_params_differs".into();
-    }
+    if tname == "SVCB" || tname == "HTTPS" { return svcb_classify(&rec, tname, k, kname); }
+    if let Ok(Ok(s)) = write_rec(&rec, 's') { if has_empty_token(&s) { return format!("empty_field_{}", tname); } }
     format!("roundtrip_{}_{}", tname, kname)
 }
 
@@ -676,6 +776,10 @@ fn main() {
         Case { owner: vec![0], class: 1, ttl: 1, rt: 43, rdata: vec![0, 1, 2, 3] },
         Case { owner: vec![0], class: 1, ttl: 1, rt: 65280, rdata: vec![] },
         Case { owner: vec![0], class: 1, ttl: 1, rt: 65280, rdata: vec![0xde, 0xad] },
+        // SVCB / HTTPS: parameters with an empty value are written as nothing at all
+        Case { owner: vec![0], class: 1, ttl: 0, rt: 65, rdata: vec![0, 0, 0, 0, 4, 0, 0] },
+        Case { owner: vec![0], class: 1, ttl: 0, rt: 64, rdata: vec![0, 1, 0, 0, 1, 0, 0] },
+        Case { owner: b"\x07$ORIGIN\x01$\x00".to_vec(), class: 1, ttl: 0, rt: 15, rdata: b"\x00\x0a\x04$TTL\x00".to_vec() },
     ];
     let mut per_type_stats: BTreeMap<String, (u64, u64)> = BTreeMap::new();
     let mut unbuildable = 0u64;
@@ -730,7 +834,7 @@ fn main() {
         for (kname, k) in KINDS {
             idx += 1; if !out.wants(idx) { continue; }
             let c = format!("generic {} {} {} {} {} {}", k, class, ttl, rt, hex(&owner), hex(&data));
-            let gclass = if owner.len() > 1 && owner[1] == b'$' { "owner_leading_dollar".to_string() } else { format!("roundtrip_GENERIC_{}", kname) };
+            let gclass = format!("roundtrip_GENERIC_{}", kname);
             out.begin(&c);
             out.oracle_case(&c, true, &format!("generic_{}", kname));
             let u2 = urec.clone();
